@@ -48,7 +48,7 @@ def run(item):
         env = dict(os.environ, VERIF_REPO=dst, VERIF_DIR=tmp)
         shutil.copy(here+'/known_findings.json', tmp)
         shutil.copy(here+'/properties.jsonl', tmp)
-        for p in claimed:
+        for p in (claimed if '--own' not in args else [q for q in claimed if q == prop]):
             r = subprocess.run([here+'/bin/verif','check',p,'--tier','quick','--no-evidence'],capture_output=True,text=True,env=env)
             if r.returncode != 0:
                 fired.append(p)
